@@ -39,24 +39,30 @@ C13_ModelCleanEnd(o) ==
 (* connection is closed, and nothing is left behind once the observer closed its channel      *)
 Other(s) == IF s = "S" THEN "C" ELSE "S"
 Has(o, k, g) == \E n \in Idx(o) : o[n].k = k /\ o[n].g = g
+Term(o) == o[CHOOSE n \in Idx(o) : o[n].k = "term"]
+(* the peer observes the terminal session envelope and moves to the corresponding state *)
+C13_PeerObserves(o) ==
+  (HasEnd(o) /\ \E n \in Idx(o) : o[n].k = "term") =>
+    LET want == IF Term(o).kind = "fail" THEN "failed" ELSE "finished"
+    IN \E n \in Idx(o) : o[n].k = "peerstate" /\ o[n].g = Other(Term(o).g) /\ o[n].kind = want
 C13_CleanEnd(o) ==
   (HasEnd(o) /\ \E n \in Idx(o) : o[n].k = "term") =>
-    LET t == o[CHOOSE n \in Idx(o) : o[n].k = "term"]
-        ini == t.g
-        want == IF t.kind = "fail" THEN "failed" ELSE "finished"
-    IN /\ \E n \in Idx(o) : o[n].k = "peerstate" /\ o[n].g = Other(ini) /\ o[n].kind = want
-       /\ Has(o, "rcvdone", "S") /\ Has(o, "rcvdone", "C")
+    LET ini == Term(o).g
+    IN /\ Has(o, "rcvdone", "S") /\ Has(o, "rcvdone", "C")
        /\ Has(o, "streams", "S") /\ Has(o, "streams", "C")
        /\ Has(o, "consumers", "S") /\ Has(o, "consumers", "C")
        /\ Has(o, "conn", ini)
+       /\ ~Has(o, "stuck", "term")      \* the terminating call returns (it is given 6 s beyond its own context)
 C13_NoLeak(o) == \A n \in Idx(o) : o[n].k = "end" => o[n].n = 0
 C13_NoCrash(o) == \A n \in Idx(o) : o[n].k # "panic"
 
 (* C17: every dispatch carries the identity of the session whose connection delivered the  *)
 (* envelope, and a reply sent through the handler's sender lands on that session's client  *)
 (*   dispatch(g = client that sent it, res = "own" | "foreign" context)                    *)
+(*   unserved(g = client whose connection was made and never became a session of its own) *)
 (*   reply(g = client that received it, res = "own" | "foreign")   ids(res = "distinct"|..)*)
 C17_Isolated(o) ==
   /\ \A n \in Idx(o) : o[n].k \in {"dispatch", "reply"} => o[n].res = "own"
+  /\ \A n \in Idx(o) : o[n].k # "unserved"      \* every connection gets a channel of its own
   /\ \A n \in Idx(o) : o[n].k = "ids" => o[n].res = "distinct"
 =============================================================================
